@@ -13,6 +13,12 @@ Contract-carrying `open_with` / `mkdirs` callables are handed to the real
 After each run, from a fresh open:  the append raised and the fault came before the summary rewrite
 started -> content == previous content and every pre-existing file is byte-identical;  the append
 returned normally -> content == previous + new rows.  In every case: pre-existing data files byte-identical.
+  (c) READ faults (the statement says "an I/O failure at any point before the summary metadata starts being rewritten"): the append starts
+      by opening the existing dataset - open-for-read and read() of `_metadata` through the caller's open_with; the r-th such call is failed
+      with OSError (quick tier: the first open-for-read and the first read() of `_metadata`; thorough: every position).  The append must
+      report failure with every file byte-identical and the previous content readable - or, where the library legitimately
+      recovers (its probe `open(<directory>)` failing is how it finds out that the path is a directory), return normally with previous +
+      new rows.  An append that swallows the failure and starts a NEW dataset (overwriting part.0.parquet and _metadata) fails both.
 """
 import os
 import shutil
@@ -30,10 +36,12 @@ G = "c19.fault_injection"
 class C19Trace:
     """the contract-carrying callables + the fault"""
 
-    def __init__(self, root, preexisting, fail_at=None, torn=False):
+    def __init__(self, root, preexisting, fail_at=None, torn=False, rfail_at=None):
         self.root = os.path.abspath(root)
         self.pre = set(preexisting)            # relative posix paths that existed before the append
         self.fail_at, self.torn = fail_at, torn
+        self.rfail_at = rfail_at               # fail the r-th READ-side call (open-for-read / read) instead
+        self.rcalls = []                       # (kind, relpath) of every read-side call: 'ropen' | 'read'
         self.calls = []                        # (kind, relpath, detail) of every COUNTED filesystem call
         self.opens = []                        # every open (also reads): (relpath, mode)
         self.violations = []
@@ -55,11 +63,21 @@ class C19Trace:
             return True
         return False
 
+    def _rcount(self, kind, rel):
+        self.rcalls.append((kind, rel))
+        if self.rfail_at is not None and len(self.rcalls) == self.rfail_at and self.fault is None:
+            self.fault = {"k": "r%d" % self.rfail_at, "kind": kind, "path": rel,
+                          "phase": "summary" if self.summary_started is not None else "before-summary"}
+            return True
+        return False
+
     def open_with(self, path, mode="rb"):
         rel = self.rel(path)
         self.opens.append((rel, mode))
         if not is_write_mode(mode):
-            return open(path, mode)
+            if self._rcount("ropen", rel):
+                raise OSError(5, "injected fault: open for reading", str(path))
+            return C19ReadFile(self, open(path, mode), rel)
         base = rel.rsplit("/", 1)[-1]
         summary = base in ("_metadata", "_common_metadata")
         if rel in self.pre and not summary:
@@ -113,6 +131,28 @@ class C19File:
         return getattr(self._f, name)
 
 
+class C19ReadFile:
+    """a file opened for reading through the caller's open_with: read() calls are counted (and may be failed)"""
+
+    def __init__(self, trace, f, rel):
+        self._t, self._f, self._rel = trace, f, rel
+
+    def read(self, *a):
+        if self._t._rcount("read", self._rel):
+            raise OSError(5, "injected fault: read", self._rel)
+        return self._f.read(*a)
+
+    def __enter__(self):
+        return self
+
+    def __exit__(self, *exc):
+        self._f.close()
+        return False
+
+    def __getattr__(self, name):
+        return getattr(self._f, name)
+
+
 def c19_frames(spec):
     """(existing frame, appended frame, row_group_offsets of the append)"""
     n_old = 3 * spec["existing_rgs"]
@@ -152,9 +192,9 @@ def c19_append(fp, spec, path, trace):
         pf.write_row_groups(new, row_group_offsets=rgo, open_with=trace.open_with, mkdirs=trace.mkdirs)
 
 
-def c19_run_one(fp, spec, template, work, k, torn):
-    """one append on a fresh copy of the template dataset, fault at the k-th call (None: fault-free).
-    -> dict(what=None|text, n_calls, fault, raised)"""
+def c19_run_one(fp, spec, template, work, k, torn, rk=None):
+    """one append on a fresh copy of the template dataset, fault at the k-th counted write-side call, or at the rk-th read-side call
+    (both None: fault-free).  -> dict(what=None|text, n_calls, fault, raised)"""
     if os.path.exists(work):
         shutil.rmtree(work)
     shutil.copytree(template, work)
@@ -165,22 +205,25 @@ def c19_run_one(fp, spec, template, work, k, torn):
     rows_old = rows_of(fp.ParquetFile(work).to_pandas(), cols)        # previous content, as a fresh open gives it
     if not same_multiset(rows_old, rows_of(old, cols)):
         return {"what": "oracle problem: the template dataset does not read back the frame it was written from",
-                "n_calls": 0, "fault": None, "raised": None, "calls": []}
-    trace = C19Trace(work, before.keys(), fail_at=k, torn=torn)
+                "n_calls": 0, "fault": None, "raised": None, "calls": [], "rcalls": []}
+    trace = C19Trace(work, before.keys(), fail_at=k, torn=torn, rfail_at=rk)
     raised = None
     try:
         c19_append(fp, spec, work, trace)
     except Exception as e:
         raised = e
     out = {"n_calls": len(trace.calls), "fault": trace.fault, "raised": type(raised).__name__ if raised else None,
-           "what": None, "calls": [(c[0], c[1]) for c in trace.calls]}
+           "what": None, "calls": [(c[0], c[1]) for c in trace.calls], "rcalls": list(trace.rcalls)}
     if trace.violations:
         out["what"] = "trace invariant: " + "; ".join(trace.violations[:3])
         return out
     if k is not None and trace.fault is None:
         out["what"] = f"oracle problem: the run issued only {len(trace.calls)} calls, fault {k} never fired"
         return out
-    if k is None and raised is not None:
+    if rk is not None and trace.fault is None:
+        out["what"] = f"oracle problem: the run issued only {len(trace.rcalls)} read-side calls, read fault {rk} never fired"
+        return out
+    if k is None and rk is None and raised is not None:
         out["what"] = f"fault-free append raised {type(raised).__name__}: {str(raised)[:150]}"
         return out
     after = snapshot(work)
@@ -225,8 +268,21 @@ def c19_scenario(fp, spec, root):
             results.append((k, False, c19_run_one(fp, spec, template, work, k, False)))
             if free["calls"][k - 1][0] == "write":
                 results.append((k, True, c19_run_one(fp, spec, template, work, k, True)))
+        # read-side faults at the start of the append (opening the existing dataset)
+        rc = free["rcalls"]
+        if spec.get("tier") == "thorough":
+            rks = list(range(1, len(rc) + 1))
+        else:
+            first = {}
+            for i, (kind, rel) in enumerate(rc, 1):
+                if rel.rsplit("/", 1)[-1] == "_metadata":
+                    first.setdefault(kind, i)
+            rks = sorted(first.values())
+        for rk in rks:
+            results.append(("r%d" % rk, False, c19_run_one(fp, spec, template, work, None, False, rk)))
     for _k, _t, r in results:
         r.pop("calls", None)
+        r.pop("rcalls", None)
     return results
 # ==== core end
 
@@ -237,23 +293,23 @@ def enumerate_specs(tier, seed):
         for nf in (1, 2, 3):
             for ex in ((1, 2, 3) if tier == "thorough" else (1, 2)):
                 for api in ("write", "write_row_groups"):
-                    specs.append({"partitioned": part, "new_files": nf, "existing_rgs": ex, "api": api})
+                    specs.append({"partitioned": part, "new_files": nf, "existing_rgs": ex, "api": api, "tier": tier})
     # datasets whose highest part number has two digits (part.10 > part.9 numerically, < lexicographically): a part-name
     # allocation that compares names as text reuses an existing number and opens an existing data file for writing
     for part in (False, True):
         for api in (("write", "write_row_groups") if tier == "thorough" else ("write",)):
-            specs.append({"partitioned": part, "new_files": 1, "existing_rgs": 11, "api": api})
+            specs.append({"partitioned": part, "new_files": 1, "existing_rgs": 11, "api": api, "tier": tier})
     return specs
 
 
 def features_of(spec, k, torn, r):
     f = {"partition_cols": 1 if spec["partitioned"] else 0, "new_part_files": spec["new_files"],
          "existing_row_groups": spec["existing_rgs"], "api": spec["api"], "k": k if k is not None else "fault-free",
-         "fault": "none" if k is None else ("torn-write" if torn else "raise")}
+         "fault": "none" if k is None else ("read-raise" if isinstance(k, str) else "torn-write" if torn else "raise")}
     flt = r.get("fault")
     if flt:
         f["call"] = flt["kind"]
-        f["target"] = "summary" if is_summary(flt["path"]) else ("dir" if flt["kind"] == "mkdirs" else "part")
+        f["target"] = "summary" if is_summary(flt["path"]) else ("dir" if flt["kind"] == "mkdirs" else "root" if flt["path"] == "." else "part")
         f["phase"] = flt["phase"]
     return f
 
@@ -263,10 +319,11 @@ def snippet_of(spec, k, torn):
         "root = tempfile.mkdtemp(prefix='verif-c19-')",
         "try:",
         "    c19_build(fp, SPEC, os.path.join(root, 'template'))",
-        "    R = c19_run_one(fp, SPEC, os.path.join(root, 'template'), os.path.join(root, 'work'), %r, %r)" % (k, torn),
+        "    R = c19_run_one(fp, SPEC, os.path.join(root, 'template'), os.path.join(root, 'work'), %r, %r, %r)"
+        % ((None, False, int(k[1:])) if isinstance(k, str) else (k, torn, None)),
         "finally:",
         "    shutil.rmtree(root, ignore_errors=True)",
-        "R.pop('calls', None); print(R)",
+        "R.pop('calls', None); R.pop('rcalls', None); print(R)",
         "VIOLATED = R['what'] is not None",
     ])
     return build_snippet(__file__, spec, tail)
@@ -296,7 +353,9 @@ def run_bounded(ctx):
         "mkdirs), every write call also as a torn write (half the bytes, then OSError).  Faults are one-shot OSError. "
         "A fault on the open of _metadata itself counts as 'before the summary rewrite' (nothing truncated yet); later "
         "faults (phase=summary) are outside the statement's first half and only checked for the trace invariant, "
-        "untouched data files and 'returned normally => new content'."))
+        "untouched data files and 'returned normally => new content'.  Plus READ faults at the start of the append (the existing "
+        "dataset is opened through the caller's open_with): quick tier the first open-for-read and the first read() of _metadata, "
+        "thorough tier every read-side call r = 1..R; the append must raise, all files byte-identical, previous content readable."))
     specs = enumerate_specs(ctx.tier, ctx.seed)
     results = pool_map(_worker, specs, chunksize=1)
     for spec, res in zip(specs, results):
